@@ -51,6 +51,9 @@ pub struct Disk {
     /// C17: a real backend behind the map. Writes go to both; reads and listings are answered
     /// by the backend and compared with the map (the reference model: first write wins).
     pub backend: Option<Box<dyn Adapter>>,
+    /// C17, persistent backends: a second handle on the same storage, used by the file-sync transport
+    /// (items arrive behind the replica's own adapter object, as with a real synchronisation tool)
+    pub sync_handle: Option<Box<dyn Adapter>>,
     pub backend_name: String,
     pub backend_mismatch: Option<String>,
     pub backend_calls: u64,
@@ -72,6 +75,7 @@ impl Disk {
             snaps: vec![],
             fired: Fired::default(),
             backend: None,
+            sync_handle: None,
             backend_name: String::new(),
             backend_mismatch: None,
             backend_calls: 0,
@@ -99,7 +103,7 @@ impl DiskRef {
     pub fn put(&self, key: &str, bytes: &[u8]) {
         self.with(|d| {
             if !d.map.contains_key(key) {
-                if let Some(b) = &d.backend {
+                if let Some(b) = d.sync_handle.as_ref().or(d.backend.as_ref()) {
                     d.backend_calls += 1;
                     if let Err(e) = b.write_object(key, bytes) {
                         d.backend_mismatch.get_or_insert(format!("write_object({}) failed on the backend: {}", key, e));
